@@ -10,5 +10,6 @@ CONSTANTS
   MAXUPD = 11
   CANCELS = 1
   TIMERS = TRUE
+  SeesAdmitting = TRUE
 SYMMETRY Sym2
 INVARIANTS TypeOK Admission NoDoubleBooking OneTerminal CleanAfterReturn QuiescentClean NoStuckSender NoStuckWithLock
